@@ -342,6 +342,12 @@ func (f *Face) GlyphVOrigin(glyph GID) (x, y int32, found bool) {
 			tsb := f.getVerticalSideBearing(gID(glyph))
 			y = int32(extents.YBearing) + int32(tsb)
 			return x, y, true
+		} else if f.isVar() {
+			// at an instance, Harfbuzz falls back to the phantom points of 'glyf'
+			// for the side bearing, which does not need 'vmtx'
+			tsb := f.getGlyphSideBearingVar(gID(glyph), true)
+			y = int32(extents.YBearing) + int32(tsb)
+			return x, y, true
 		}
 
 		fontExtents, _ := f.FontHExtents()
